@@ -58,7 +58,7 @@ class WFQ(Scheduler):
             yield env.process(self.send_packet(packet))
             self.update_vtime()
             class_id = self.flow2class(packet.flow_id)
-            if self.queue_count[class_id] == 0:
+            if self.class_count[class_id] == 0:
                 self.active_set.remove(class_id)
             if len(self.active_set) == 0:
                 self.reset_vtime()
